@@ -7,6 +7,7 @@ package zztier
 
 import (
 	"context"
+	"reflect"
 	"sort"
 	"strings"
 	"time"
@@ -78,6 +79,7 @@ func deepReset(e *ast.Expression, depth int) {
 		return
 	}
 	e.Evaluated = false
+	e.Value = reflect.Value{} // amnesia: as on an instance that has never evaluated anything (a failing node must not leak an old value)
 	deepReset(e.LeftExpression, depth+1)
 	deepReset(e.RightExpression, depth+1)
 	deepReset(e.SingleExpression, depth+1)
@@ -89,13 +91,18 @@ func deepResetAtom(a *ast.ExpressionAtom, depth int) {
 		return
 	}
 	a.Evaluated = false
+	a.Value, a.ValueNode = reflect.Value{}, nil
 	deepResetAtom(a.ExpressionAtom, depth+1)
+	if a.FunctionCall != nil {
+		a.FunctionCall.Value = reflect.Value{}
+	}
 	if a.FunctionCall != nil && a.FunctionCall.ArgumentList != nil {
 		for _, x := range a.FunctionCall.ArgumentList.Arguments {
 			deepReset(x, depth+1)
 		}
 	}
 	if a.ArrayMapSelector != nil {
+		a.ArrayMapSelector.Value = reflect.Value{}
 		deepReset(a.ArrayMapSelector.Expression, depth+1)
 	}
 	deepResetVar(a.Variable, depth+1)
@@ -105,7 +112,9 @@ func deepResetVar(v *ast.Variable, depth int) {
 	if v == nil || depth > 64 {
 		return
 	}
+	v.Value, v.ValueNode = reflect.Value{}, nil
 	if v.ArrayMapSelector != nil {
+		v.ArrayMapSelector.Value = reflect.Value{}
 		deepReset(v.ArrayMapSelector.Expression, depth+1)
 	}
 	deepResetVar(v.Variable, depth+1)
@@ -419,7 +428,7 @@ var tbSets = map[string][]string{
 	"actfail":  {"b_actfail", "b_completefail"},
 	"ctl1":     {"b_retract", "b_completetop"},
 	"controlp": {"b_retract", "b_fail", "b_nilptr", "b_actfail", "b_completefail"},
-	"dbg":      {"b_kind"},
+	"dbg":      {"b_parenfail"},
 	"fetch":    {"b_basic", "b_short", "b_map", "b_slice", "b_nested", "b_shared", "b_ifacebool", "b_argshare"},
 	"clone":    {"b_paren", "b_argshare", "b_shared", "b_short", "b_retract", "b_map", "b_slice_sel", "b_forgetcall", "two"},
 }
